@@ -26,16 +26,16 @@ func iTransformAVX2(ref []byte, in []int16, dst []byte, doTwo bool) {
 
 // transformTwoDecAVX2 wraps the AVX2 IDCT for decoder use.
 func transformTwoDecAVX2(in []int16, dst []byte, doTwo bool) {
-	iTransformOneAVX2(dst, in, dst)
+	decTransformOne(iTransformOneAVX2, in, dst)
 	if doTwo {
-		iTransformOneAVX2(dst[4:], in[16:], dst[4:])
+		decTransformOne(iTransformOneAVX2, in[16:], dst[4:])
 	}
 }
 
 // transformUVAVX2 applies AVX2 IDCT for all four chroma 4x4 blocks.
 func transformUVAVX2(in []int16, dst []byte) {
-	iTransformOneAVX2(dst, in, dst)
-	iTransformOneAVX2(dst[4:], in[16:], dst[4:])
-	iTransformOneAVX2(dst[4*BPS:], in[32:], dst[4*BPS:])
-	iTransformOneAVX2(dst[4*BPS+4:], in[48:], dst[4*BPS+4:])
+	decTransformOne(iTransformOneAVX2, in, dst)
+	decTransformOne(iTransformOneAVX2, in[16:], dst[4:])
+	decTransformOne(iTransformOneAVX2, in[32:], dst[4*BPS:])
+	decTransformOne(iTransformOneAVX2, in[48:], dst[4*BPS+4:])
 }
